@@ -773,7 +773,9 @@ def select__element_kind_test(self: XPathFunction, context: ta.ContextType = Non
             elif len(self) == 1:
                 yield item
             else:
-                type_annotation = self[1].name
+                type_annotation = self[1].name or get_expanded_name(
+                    cast(str, self[1].value), self.parser.namespaces
+                )  # an unprefixed type name: the default element/type namespace, or no namespace
                 if item.nilled:
                     if self[1].occurrence in ('*', '?'):
                         yield item
